@@ -72,7 +72,8 @@ RefMesh referenceOf(const GenMesh& m, const FileVar& fv) {
 }
 
 // The round-trip oracle. Returns false (after ctx.fail) on violation. `base` = vertices/faces already in the mesh before loading (append).
-bool checkLoaded(pbt::Ctx& ctx, const PolygonalMesh& pm, const RefMesh& ref, const FileVar& fv, int baseV, int baseF, double L) {
+bool checkLoaded(pbt::Ctx& ctx, const PolygonalMesh& pm, const RefMesh& ref, const FileVar& fv, int baseV, int baseF, double L, bool* stlWellSeparated = nullptr) {
+    if (stlWellSeparated) *stlWellSeparated = false;
     const int nv = pm.getNumVertices(), nf = pm.getNumFaces();
     if (!ctx.check(nf == baseF + (int)ref.F.size(), "loaded mesh has " + std::to_string(nf - baseF) + " new faces, file has " + std::to_string(ref.F.size()))) return false;
     for (int f = baseF; f < nf; ++f) { int n = pm.getNumVerticesForFace(f);
@@ -93,7 +94,7 @@ bool checkLoaded(pbt::Ctx& ctx, const PolygonalMesh& pm, const RefMesh& ref, con
         for (auto& f : ref.F) for (int i : f) distinct.insert({ref.V[i][0], ref.V[i][1], ref.V[i][2]});
         std::vector<std::array<double,3> > dv(distinct.begin(), distinct.end());
         if (dv.size() <= 3000) { for (size_t i = 0; i < dv.size(); ++i) for (size_t j = i + 1; j < dv.size(); ++j) { if (dv[j][0] - dv[i][0] > minSep) break; double d = std::max(std::max(std::fabs(dv[i][0] - dv[j][0]), std::fabs(dv[i][1] - dv[j][1])), std::fabs(dv[i][2] - dv[j][2])); minSep = std::min(minSep, d); }
-            if (minSep > 1e-4) { ctx.label("stl:merge-count-checked"); if (!ctx.check(nv - baseV == (int)dv.size() || baseV > 0, "STL loader produced " + std::to_string(nv - baseV) + " vertices for " + std::to_string(dv.size()) + " distinct, well separated positions")) return false; } }
+            if (minSep > 1e-4) { ctx.label("stl:merge-count-checked"); if (stlWellSeparated) *stlWellSeparated = true; if (!ctx.check(nv - baseV == (int)dv.size() || baseV > 0, "STL loader produced " + std::to_string(nv - baseV) + " vertices for " + std::to_string(dv.size()) + " distinct, well separated positions")) return false; } }
     }
     return true;
 }
@@ -112,7 +113,7 @@ void fileMode(const pbt::Tape& t, pbt::Ctx& ctx) {
     PolygonalMesh pm;
     try { pm.loadFile(tf.path); } catch (const std::exception& e) { ctx.fail(std::string("loader rejected a valid file: ") + std::string(e.what()).substr(0, 300)); return; }
     // known finding: OBJ "v//vn" references (no texture index) are mis-parsed: normal indices garbage (vertices/faces still right)
-    if (!checkLoaded(ctx, pm, ref, fv, 0, 0, mc.L)) return;
+    bool stlSep = false; if (!checkLoaded(ctx, pm, ref, fv, 0, 0, mc.L, &stlSep)) return;
     if (append) {
         int bv = pm.getNumVertices(), bf = pm.getNumFaces();
         // second file = same mesh translated (distinct positions so that STL merging does not identify them)
@@ -130,7 +131,8 @@ void fileMode(const pbt::Tape& t, pbt::Ctx& ctx) {
         return;
     }
     // A closed mesh loaded from a file must be usable as a TriangleMesh (statement: "including meshes loaded from ... files")
-    if (mc.gm.closed) { try { ContactGeometry::TriangleMesh tm(pm); ctx.label("file:trianglemesh-built");
+    // (STL: only when no two distinct vertices are within the loader's documented merge tolerance of each other)
+    if (mc.gm.closed && (fv.fmt <= 1 || stlSep)) { try { ContactGeometry::TriangleMesh tm(pm); ctx.label("file:trianglemesh-built");
             int want = 0; for (auto& f : ref.F) want += f.size() == 3 ? 1 : f.size() == 4 ? 2 : (int)f.size();
             ctx.check(tm.getNumFaces() == want, "TriangleMesh from loaded file has " + std::to_string(tm.getNumFaces()) + " faces, expected " + std::to_string(want));
         } catch (const std::exception& e) { ctx.fail(std::string("closed mesh loaded from file is rejected by TriangleMesh: ") + std::string(e.what()).substr(0, 300)); } }
@@ -201,8 +203,11 @@ void cloudMode(const pbt::Tape& t, pbt::Ctx& ctx) {
 // temp1 > 0", where the code tests the sign of e instead of d and the two signs differ.
 bool region6Site(V3 q, V3 v1, V3 v2, V3 v3) {
     V3 e0 = v2 - v1, e1 = v3 - v1, dl = v1 - q; LD a = dot(e0, e0), b = dot(e0, e1), c = dot(e1, e1), d = dot(e0, dl), e = dot(e1, dl), det = a * c - b * b, s = b * e - c * d, t = b * d - a * e;
-    if (s + t <= det || s < 0 || !(t < 0)) return false;
-    LD temp0 = b + e, temp1 = a + d; if (temp1 > temp0 || temp1 <= 0) return false;
+    // (boundaries taken with a 1e-9 relative margin: the library evaluates the same expressions in double)
+    LD m = 1e-9L * (std::fabs(b * e) + std::fabs(c * d) + std::fabs(b * d) + std::fabs(a * e) + a * c), m2 = 1e-9L * (a + std::fabs(b) + std::fabs(d) + std::fabs(e));
+    if (s + t <= det - m || s < -m || !(t < m)) return false;
+    LD temp0 = b + e, temp1 = a + d; if (temp1 > temp0 + m2 || temp1 <= -m2) return false;
+    if (std::fabs(e) <= m2 || std::fabs(d) <= m2) return true;
     return (e >= 0) != (d >= 0);
 }
 
@@ -396,8 +401,8 @@ void property(const pbt::Tape& t, pbt::Ctx& ctx) {
 }
 
 pbt::Config config() {
-    pbt::Config c; c.prop = "C36"; c.K = 24; c.minUnits = 2;
-    c.quick = {1500, 6000, 40, 25}; c.thorough = {8000, 60000, 60, 240};
+    pbt::Config c; c.prop = "C36"; c.K = 24; c.minUnits = 2; c.maxShrinkSecs = 20;
+    c.quick = {1500, 6000, 40, 25}; c.thorough = {8000, 60000, 60, 150};
     c.rule = "tape -> mode {mesh queries 1/2, file round trip 1/4, point cloud 1/4}; meshes: tetra/octasphere(8..512 faces)/icosphere(20..320)/box grid/torus/prism/two components with radial noise <=45%, anisotropic squash to 1e-3, rigid motion, scale 1e-2..1e2; each further tape unit = one nearest-point or ray query (targets on faces, edges, vertices, offsets 1e-9..2 mesh sizes) or one cloud point. Non-trivial: query mode: mesh >= 50 faces and a nearest point on an edge/vertex or a ray through >= 2 faces; file mode: >= 8 faces with a syntactic variation; cloud: >= 5 non-coincident points.";
     c.assumptions = {"long double brute force over all faces is the reference", "inside/outside reference = generalized winding number; generated meshes are star-shaped about a centre (or tube-star-shaped tori), hence embedded", "domain: |coordinates| <= ~2e3, mesh scale 1e-2..1e2 (the OBB code uses absolute tolerances 1e-10)", "malformed files are outside the property: only files produced by the harness's own writer are loaded"};
     c.directed.push_back({"tetra-outside-point-reported-inside", "inside-flag-tiebreak-leaf-asymmetric", [](pbt::Ctx& ctx) {
